@@ -409,6 +409,17 @@ func (ex *Exec) RunEntry(name string) *EntryResult {
 					// a server loop waiting for its next event: a normal end of the explored prefix
 					break
 				}
+				if top := n.top(); top != nil && len(ex.Spec.AllowBlockIn) > 0 {
+					// waiting is legitimate only in the named functions themselves (e.g. a request waiting for its
+					// response); blocked anywhere below them (a callee that can never proceed) is a violation
+					okIn := false
+					for _, f := range ex.Spec.AllowBlockIn {
+						okIn = okIn || f == top.Fn.String()
+					}
+					if okIn {
+						break
+					}
+				}
 				n.status = Running
 				func() {
 					defer func() { recover() }()
